@@ -124,6 +124,10 @@ def main() -> int:
                 mod.run(out)
                 out.count("extra_rounds")
             out.seed = seed
+            import dets as dets_mod
+            for cls_f, params_f, why_f in dets_mod.FAILED_CONSTRUCTIONS[:5]:
+                out.violation(f"{cls_f}: a configuration meant to be valid (defaults or generated inside the documented domains) was rejected by the constructor: {why_f}",
+                              {"class": cls_f, "params": params_f, "kind": "constructor"})
         # The tie between model and code is broken but the property's own oracle found nothing: search harder for a failing input on the
         # implementation (thorough budget, other seeds) before reporting `no-failing-input-found` (DESIGN §4 step 3).
         if out.mismatches and not out.violations and not a.replay and a.tier == "quick" and not os.environ.get("VERIF_NO_SEARCH"):
